@@ -1,6 +1,6 @@
 (* C10 / C12: i-vector projection is the unique posterior mean; covariance floor; the accumulators
    form a commutative monoid and the pairwise tree reduction equals the plain sum, so every
-   partition of the statistics enters the M-step exactly once.  Statements fixed; proofs to be completed. *)
+   partition of the statistics enters the M-step exactly once. *)
 From Coq Require Import Reals Lra List Lia Bool Arith Permutation.
 From BLE Require Import Num.Scalar Num.InstR Lib.Vec Model.IVector Proofs.RLemmas.
 Import ListNotations.
